@@ -527,7 +527,7 @@ func (cf *cFile) compileProbe(repo, shim, scratch string) (map[string]*rawRec, m
 }
 
 // buildCkeys writes the generated header of the key-capture runner and compiles it natively
-func (cf *cFile) buildCkeys(shim, dir string) {
+func (cf *cFile) buildCkeys(shim, dir string, structs []Struct) {
 	base := strings.TrimSuffix(filepath.Base(cf.path), ".c")
 	var sb strings.Builder
 	sb.WriteString("/* generated by extractlayout */\n#define CK_MAPS_LIST")
@@ -555,6 +555,30 @@ func (cf *cFile) buildCkeys(shim, dir string) {
 		fmt.Fprintf(&sb, " \\\n\t%s(%s)", kind, p.name)
 	}
 	sb.WriteString("\n")
+	// decoders: what the COMPILED C code reads out of a record, member by member (real member access by NAME, so a
+	// Go struct whose same-width fields are swapped decodes to swapped values).  One function per record; integer
+	// data leaves as decimal numbers, byte arrays as hex.
+	sb.WriteString("#define CK_HAVE_DECODERS 1\n")
+	for _, st := range structs {
+		fmt.Fprintf(&sb, "static void ck_dec_%s(const unsigned char *b) {\n\tstruct %s v;\n\tmemcpy(&v, b, sizeof(v));\n", st.Name, st.Name)
+		for _, f := range st.Fields {
+			if f.Norm == "_" || f.Name == "" {
+				continue
+			}
+			switch f.Kind {
+			case "int":
+				fmt.Fprintf(&sb, "\tck_dec_int(\"%s\", (unsigned long long)v.%s);\n", f.Name, f.Name)
+			case "bytes":
+				fmt.Fprintf(&sb, "\tck_dec_bytes(\"%s\", (const unsigned char *)v.%s, sizeof(v.%s));\n", f.Name, f.Name, f.Name)
+			}
+		}
+		sb.WriteString("}\n")
+	}
+	sb.WriteString("static struct ck_decoder ck_decoders[] = {\n")
+	for _, st := range structs {
+		fmt.Fprintf(&sb, "\t{\"%s\", sizeof(struct %s), ck_dec_%s},\n", st.Name, st.Name, st.Name)
+	}
+	sb.WriteString("\t{0, 0, 0}};\n")
 	hdr := filepath.Join(dir, "ckeys_"+base+".h")
 	if err := os.WriteFile(hdr, []byte(sb.String()), 0o644); err != nil {
 		die("%v", err)
@@ -930,9 +954,6 @@ func main() {
 		cf := readCFile(*repo, p)
 		cfs = append(cfs, cf)
 		recs, sizes := cf.compileProbe(*repo, *shim, *scratch)
-		if *ckeysDir != "" {
-			cf.buildCkeys(*shim, *ckeysDir)
-		}
 		for _, pr := range cf.progs {
 			out.Progs = append(out.Progs, Prog{Name: pr.name, Ctx: pr.ctx, Sec: pr.sec, File: strings.TrimSuffix(filepath.Base(p), ".c")})
 		}
@@ -951,6 +972,15 @@ func main() {
 				die("struct %s is declared with two different layouts (%s and %s)", n, old.Where, s.Where)
 			}
 			cStructs[n] = s
+		}
+		if *ckeysDir != "" {
+			var own []Struct
+			for _, n := range names {
+				if st, ok := cStructs[n]; ok {
+					own = append(own, st)
+				}
+			}
+			cf.buildCkeys(*shim, *ckeysDir, own)
 		}
 		for _, m := range cf.maps {
 			v, ok := sizes[m.Name]
